@@ -26,6 +26,11 @@ structure Env where
   /-- `true`: the span start is the regex match's own offset (code after the `first-occurrence-span` fix);
       `false`: `trimmed_source.index(match)`, the first textual occurrence (code before it) -/
   useMatchOffset : Bool
+  /-- what `StringUtility.index_of` answers on a miss: `-1` (code after /repo 4afb7c9b1), `1` (before) -/
+  missIndex : Int
+  /-- `ChoiceModel.parse` starts with `parse_results = []` (after /repo 74161fefc): an exception during extraction
+      yields no entity; before it surfaced as UnboundLocalError -/
+  parseInit : Bool
 
 /-! ### `remove_unicode_matches` on the pattern text
 PRE-FIX code (kept for the regression theorems): `re.sub('\\\\u.{4}[\\|\\\\]', '', pattern)` then
@@ -122,24 +127,30 @@ def tokenize (E : Env) (s : Str) : List Str := tokGo E s []
 
 /-! ### `match_value` in exact rationals -/
 
-/-- `StringUtility.index_of(list, token, position)`: `list.index(token, position)`, and **1** on ValueError. -/
-def indexOf (source : List Str) (token : Str) (position : Int) : Int :=
+/-- first index `≥ k` (counting from offset `k`) at which `t` stands in `l` -/
+def findTok (t : Str) : List Str → Nat → Option Nat
+  | [], _ => none
+  | x :: r, k => if x == t then some k else findTok t r (k + 1)
+
+/-- `StringUtility.index_of(list, token, position)`: `list.index(token, position)`, and `miss` on ValueError
+(`-1` in the current code, `1` before /repo 4afb7c9b1). -/
+def indexOf (miss : Int) (source : List Str) (token : Str) (position : Int) : Int :=
   let n : Int := source.length
   let p : Int := if position < 0 then max (position + n) 0 else position
-  match (source.drop p.toNat).findIdx? (· == token) with
-  | some k => p + k
-  | none => 1
+  match findTok token (source.drop p.toNat) p.toNat with
+  | some r => r
+  | none => miss
 
 /-- the loop of `match_value`: `(matched, total_deviation, start_pos)` -/
-def mvGo (maxDistance : Int) (source : List Str) : List Str → Int → Int → Int → Int × Int
+def mvGo (miss : Int) (maxDistance : Int) (source : List Str) : List Str → Int → Int → Int → Int × Int
   | [], matched, dev, _ => (matched, dev)
   | t :: rest, matched, dev, startPos =>
-    let pos := indexOf source t startPos
+    let pos := indexOf miss source t startPos
     if pos ≥ 0 then
       let distance := if matched > 0 then pos - startPos else 0
-      if distance ≤ maxDistance then mvGo maxDistance source rest (matched + 1) (dev + distance) (pos + 1)
-      else mvGo maxDistance source rest matched dev startPos
-    else mvGo maxDistance source rest matched dev startPos
+      if distance ≤ maxDistance then mvGo miss maxDistance source rest (matched + 1) (dev + distance) (pos + 1)
+      else mvGo miss maxDistance source rest matched dev startPos
+    else mvGo miss maxDistance source rest matched dev startPos
 
 /-- a score as an exact fraction `num / den` (`den > 0`), or exactly `0.0` -/
 structure Score where
@@ -157,8 +168,8 @@ def Score.gt (a b : Score) : Bool :=
 
 /-- `ChoiceExtractor.match_value` with `allow_partial_match = False`, `max_distance = 2` (BooleanExtractor):
 `0.4 + 0.6 * (matched/len(match)) * (matched/(matched+dev)) * (matched/len(source))` as a fraction; `none` = ZeroDivisionError. -/
-def matchValue (source match_ : List Str) (startPos : Int) : Option Score :=
-  let (matched, dev) := mvGo 2 source match_ 0 0 startPos
+def matchValue (miss : Int) (source match_ : List Str) (startPos : Int) : Option Score :=
+  let (matched, dev) := mvGo miss 2 source match_ 0 0 startPos
   let lm : Int := match_.length
   if matched > 0 ∧ matched = lm then
     let d := lm * (matched + dev) * (source.length : Int)
@@ -181,9 +192,9 @@ def getMatches (E : Env) (re : RE) (s : Str) : List (Nat × Str) :=
   ((findAll E.T s.toArray re).map fun (a, b) => (a, E.lower (sliceI s a b))).filter (·.2 ≠ [])
 
 /-- `top_score = max(top_score, score)` over every start position; `none` = an exception inside -/
-def topScore (source match_ : List Str) : Option Score :=
+def topScore (miss : Int) (source match_ : List Str) : Option Score :=
   (List.range source.length).foldl (fun acc (i : Nat) =>
-    match acc, matchValue source match_ (i : Int) with
+    match acc, matchValue miss source match_ (i : Int) with
     | some t, some sc => some (if sc.gt t then sc else t)
     | _, _ => none) (some Score.zero)
 
@@ -193,7 +204,7 @@ def partialFor (E : Env) (source trimmed : Str) (srcTokens : List Str) (re : RE)
     match acc with
     | none => none
     | some out =>
-      match topScore srcTokens (tokenize E m) with
+      match topScore E.missIndex srcTokens (tokenize E m) with
       | none => none
       | some top =>
         if top.gt Score.zero then
@@ -244,9 +255,10 @@ structure MR where
 deriving Repr, DecidableEq, Inhabited
 
 /-- `recognize_boolean`: `BooleanModel.parse` ∘ `BooleanParser.parse` ∘ `BooleanExtractor.extract`.
-`none` = an exception escapes (`parse_results` is unbound when the `try` block raised). -/
+`none` = an exception escapes (before /repo 74161fefc `parse_results` was unbound when the `try` block raised). -/
 def recognise (E : Env) (q : Str) : Option (List MR) :=
-  (extract E q).map fun ers => ers.map fun e =>
-    ⟨e.start, (e.start : Int) + e.text.length - 1, e.text, e.value, true⟩
+  match extract E q with
+  | some ers => some (ers.map fun e => ⟨e.start, (e.start : Int) + e.text.length - 1, e.text, e.value, true⟩)
+  | none => if E.parseInit then some [] else none
 
 end RTV.Choice
